@@ -1,6 +1,10 @@
 package types
 
 import (
+	"bytes"
+	"math"
+	"strconv"
+
 	"github.com/tinylib/msgp/msgp"
 	"github.com/valyala/fastjson"
 )
@@ -43,7 +47,7 @@ func AppendJSONValue(buf []byte, v *fastjson.Value) ([]byte, error) {
 		s, _ := v.StringBytes()
 		return msgp.AppendStringFromBytes(buf, s), nil
 	case fastjson.TypeNumber:
-		return msgp.AppendFloat64(buf, v.GetFloat64()), nil
+		return msgp.AppendFloat64(buf, jsonNumberToFloat64(v)), nil
 	case fastjson.TypeTrue:
 		return msgp.AppendBool(buf, true), nil
 	case fastjson.TypeFalse:
@@ -53,6 +57,24 @@ func AppendJSONValue(buf []byte, v *fastjson.Value) ([]byte, error) {
 	default:
 		return msgp.AppendIntf(buf, nil)
 	}
+}
+
+// jsonNumberToFloat64 returns the float64 nearest to a JSON number, like
+// strconv.ParseFloat (and like the JSON decoder used for single events).
+// fastjson's own conversion is only "best effort" for numbers written with an
+// exponent: it scales the mantissa by a rounded power of ten, so for example
+// 7e-5 or -32226e-1 come out one ulp off. Numbers without an exponent take
+// fastjson's fast path, which is exact.
+func jsonNumberToFloat64(v *fastjson.Value) float64 {
+	var scratch [32]byte
+	raw := v.MarshalTo(scratch[:0])
+	if bytes.IndexAny(raw, "eE") >= 0 {
+		f, err := strconv.ParseFloat(string(raw), 64)
+		if err == nil || math.IsInf(f, 0) {
+			return f
+		}
+	}
+	return v.GetFloat64()
 }
 
 func appendJSONObject(buf []byte, v *fastjson.Value) ([]byte, error) {
